@@ -61,6 +61,19 @@ def checkLog (ms : List Machine) (lim st : Nat → Nat) (lastTrans : Nat → Opt
     else checkLog ms (fun j => if j == mi then v else lim j) st lastTrans rest
   | _ :: rest => checkLog ms lim st lastTrans rest
 
+/-- the part of a call's log before the signal round -/
+def beforeSignals (log : List LogEntry) : List LogEntry :=
+  log.takeWhile fun e => match e with
+    | .trans _ ev _ => ev != Gen.EV_Signal
+    | _ => true
+
+/-- did machine `mi` change its state index (or end) according to the log, starting in `st0` -/
+def changedState (mi st0 : Nat) (log : List LogEntry) : Bool :=
+  (log.foldl (fun (acc : Nat × Bool) e => match e with
+    | .sampled m _ next =>
+      if m == mi && (next == STATE_END || (isRegular next && next != acc.1)) then (next, true) else acc
+    | _ => acc) (st0, false)).2
+
 def decrements (mi : Nat) (log : List LogEntry) : Nat :=
   log.countP fun e => match e with
     | .limit m _ true => m == mi
@@ -80,6 +93,34 @@ def monitor (t : FwTrace) : Option String :=
         -- completions for other machines never consume the limit
         match (List.range n).find? (fun j => decrements j c.log > completions j c.events) with
         | some j => some s!"call {i}: machine {j}: {decrements j c.log} decrements for {completions j c.events} own completions"
+        | none =>
+        -- a completion for a live machine that leaves its state unchanged consumes exactly one unit
+        -- of the limit, whatever the kind of the completion; one that changes the state consumes none
+        -- (single-event calls, where the whole pre-signal log belongs to that event)
+        let own : Option Nat := match c.events with
+          | [.paddingSent m] => some m
+          | [.blockingBegin m] => some m
+          | [.timerBegin m] => some m
+          | _ => none
+        let missing := match own with
+          | some m =>
+            if m < n && st m != STATE_END then
+              let pre := beforeSignals c.log
+              -- the transition for the completion itself: everything before the (first) decrement
+              let preDec := pre.takeWhile fun (e : LogEntry) => match e with
+                | LogEntry.limit mm _ true => mm != m
+                | _ => true
+              let d := decrements m pre
+              if d == 0 then
+                if !changedState m (st m) pre then some s!"machine {m}: completion without state change consumed no unit of the limit"
+                else none
+              else if d != 1 then some s!"machine {m}: one completion consumed {d} units of the limit"
+              else if changedState m (st m) preDec then some s!"machine {m}: limit decremented although the completion changed its state"
+              else none
+            else none
+          | none => none
+        match missing with
+        | some msg => some s!"call {i}: {msg}"
         | none =>
           -- an action of a limitable kind is never scheduled while the limit is exhausted: if the limit
           -- was 0 before the call and was neither resampled nor decremented during it, every action
